@@ -565,8 +565,12 @@ func RunChain(job *ChainJob, scratch string, timeout time.Duration) *ChainOut {
 				break
 			}
 		}
-		if len(s) > 5000 {
-			s = s[:5000]
+		lim := 5000
+		if out.TimedOut {
+			lim = 200000
+		}
+		if len(s) > lim {
+			s = s[:lim]
 		}
 		out.Stderr = s
 	}
